@@ -46,7 +46,8 @@ type c13mRound struct {
 	CCBad   bool        `json:"cc_bad"`   // the ClientConf file does not parse
 	Set     int         `json:"set"`      // id of the subnet set published in this round
 	Gens    []int       `json:"gens"`     // client generations the subnets file contains
-	SubBad  bool        `json:"sub_bad"`  // the subnets file does not parse
+	SubBad  bool        `json:"sub_bad"`  // the subnets file does not load
+	SubBadKind string   `json:"sub_bad_kind"` // syntax (TOML syntax error) | stage2 (parses as TOML, generation key is not a number) | missing | isdir
 	HoldCC  bool        `json:"hold_cc"`  // ClientConf is read through a FIFO
 	HoldSub bool        `json:"hold_sub"` // the subnets file is read through a FIFO
 	Probes  []c13mProbe `json:"probes"`
@@ -427,10 +428,23 @@ enforce_subnet_overrides = false
 		subData := c13mSubnets(rd.Set, rd.Gens)
 		if rd.SubBad {
 			subData = []byte("[Networks\n not toml = = =\n")
+			if rd.SubBadKind == "stage2" {
+				subData = []byte("[Networks]\n  [Networks.abc]\n    Generation = 1\n    [[Networks.abc.WeightedSubnets]]\n      Weight = 1\n      Subnets = [\"10.9.9.0/24\", \"fd00:9:9::/48\"]\n")
+			}
+		}
+		noFile := rd.SubBad && (rd.SubBadKind == "missing" || rd.SubBadKind == "isdir")
+		if noFile {
+			rd.HoldSub = false
 		}
 		// the operator publishes the subnets file first, then the ClientConf, then signals
 		if rd.HoldSub {
 			os.Setenv("PHANTOM_SUBNET_LOCATION", subFifo)
+		} else if noFile {
+			if rd.SubBadKind == "isdir" {
+				os.Setenv("PHANTOM_SUBNET_LOCATION", dir)
+			} else {
+				os.Setenv("PHANTOM_SUBNET_LOCATION", filepath.Join(dir, "no_such_subnets.toml"))
+			}
 		} else {
 			c13mReplace(subFile, subData)
 			os.Setenv("PHANTOM_SUBNET_LOCATION", subFile)
@@ -501,14 +515,17 @@ enforce_subnet_overrides = false
 		for {
 			o := c13mRegister(url, state)
 			ro.Final = o
-			if rd.CCBad {
-				// the reload is aborted before anything is touched: nothing to wait for but the handler itself
-				time.Sleep(20 * time.Millisecond)
-				ro.Final = c13mRegister(url, state)
+			if rd.CCBad || rd.SubBad {
+				// the reload is aborted: nothing to wait for but the handler itself; keep looking for a while
+				// whether anything changes all the same
+				for t1 := time.Now(); time.Since(t1) < 60*time.Millisecond && !c13mDead.Load(); {
+					time.Sleep(3 * time.Millisecond)
+					ro.Final = c13mRegister(url, state)
+				}
 				ro.Settled = true
 				break
 			}
-			if o.Status == 200 && o.CC == wantCC && (rd.SubBad || o.V4Set == wantSet) {
+			if o.Status == 200 && o.CC == wantCC && o.V4Set == wantSet {
 				ro.Settled = true
 				break
 			}
@@ -517,7 +534,7 @@ enforce_subnet_overrides = false
 			}
 			time.Sleep(500 * time.Microsecond)
 		}
-		if c.DNS && !rd.CCBad && ro.Settled && rd.CC > curCC {
+		if c.DNS && !rd.CCBad && !rd.SubBad && ro.Settled && rd.CC > curCC {
 			// the DNS registrar is told last: wait until it reports generation cc-1 as outdated
 			for time.Now().Before(deadline) && !c13mDead.Load() {
 				if o := c13mRegisterDNS(c13mProbe{Gen: rd.CC - 1, V4: true}); o.CC == 1 {
@@ -526,7 +543,7 @@ enforce_subnet_overrides = false
 				time.Sleep(500 * time.Microsecond)
 			}
 		}
-		if !rd.CCBad {
+		if !rd.CCBad && !rd.SubBad {
 			curCC = rd.CC
 		}
 		stressStop.Store(true)
